@@ -135,7 +135,9 @@ def run(ctx, canary=False):
         ctx.violation("design-level: %s violated in EngineHistory.tla" % r.violated, {"tlc": r.trace_text()}, {"kind": "design"})
     emits = list({json.dumps(e, sort_keys=True): e for e in r.emits}.values())
     if thorough:
-        r3 = ctx.tlc("est/EngineHistory.tla", cfg % (to_tla(set(L)), 3), name="EngineHistory3", workers=8, timeout=3600)
+        # depth 3 over a reduced alphabet (four lists, no callbacks): 24^3 x 2 histories instead of 198^3 x 2
+        cfg3 = cfg.replace('Callbacks = {\"none\", \"counter\", \"logger\"}', 'Callbacks = {\"none\"}')
+        r3 = ctx.tlc("est/EngineHistory.tla", cfg3 % (to_tla({"M1", "M2", "M3", "M0"}), 3), name="EngineHistory3", workers=8, timeout=3600)
         e3 = list({json.dumps(e, sort_keys=True): e for e in r3.emits}.values())
         rng.shuffle(e3)
         emits += e3[:1500]
